@@ -133,10 +133,16 @@ pub fn eval_mixed<F: Fn(&StepViolation) -> bool>(scene: &Scene, owns: &F, isolat
                     return Err(Violation::new(format!("mixed/{}/{}", prop_kind(&v.kind), v.clause), scene.to_string(), format!("step {} ({}) under the model's clip (rect {:?}, {}): {}\n{}", i, op.kind(), eff.rect, if eff.mask.is_some() { "path coverage product" } else { "no path" }, v.clause, v.detail)));
                 }
                 st.foreign = true;
-                if !isolated {
-                    return Ok(st);
+                // a violation that belongs to another property: after a panic the target is in no
+                // defined state and the scene ends; otherwise the history goes on under the model's
+                // clip (what was pushed, not what the implementation kept), so that what follows
+                // from it for this property is still seen
+                if cands.iter().any(|o| o.kind == Kind::Panic) {
+                    if !isolated {
+                        return Ok(st);
+                    }
+                    break;
                 }
-                break;
             }
         }
         match op {
